@@ -157,6 +157,45 @@ def main(tier, seed):
             nviol += 1
             if nviol <= 3:
                 rep.violation("%s predict: %s" % (which, msg), dict(d, batch=rows), key="predict_position:" + which)
+    # ---- integer-coded rows on both sides of a class boundary between two adjacent codes (c-1 | c, for every c in -3..3),
+    #      all in one batch: each row's label must be the one it gets alone (rows that merely look alike - equal hashes,
+    #      equal prefixes - are different samples)
+    from opfython.models.knn_supervised import KNNSupervisedOPF
+    from opfython.models.unsupervised import UnsupervisedOPF
+    for rep_i in range(2 if tier == "quick" else 40):
+        for cbound in range(-3, 4):
+            pts = [(float(x), float(y)) for x in range(cbound - 3, cbound + 3) for y in range(3)]
+            rng.shuffle(pts)
+            labs = [1 if x >= cbound else 2 for (x, _) in pts]
+            Xall, Yall = np.array(pts), np.array(labs)
+            ntr = 12
+            if len(set(labs[:ntr])) < 2 or len(set(labs[ntr:])) < 2:
+                continue
+            Q = np.array([[float(cbound + dx), float(y) + rng.choice([0.0, 0.25])] for y in range(3) for dx in (0, -1, 1, -2)])
+            d = dict(model="knn", boundary_between=[cbound - 1, cbound], X=Xall.tolist(), Y=Yall.tolist(), n_train=ntr, queries=Q.tolist())
+            for which in ("knn", "unsup"):
+                try:
+                    if which == "knn":
+                        mdl = KNNSupervisedOPF(max_k=3, distance="euclidean")
+                        mdl.fit(Xall[:ntr].copy(), Yall[:ntr].copy(), Xall[ntr:].copy(), Yall[ntr:].copy())
+                        one = lambda A: [int(v) for v in mdl.predict(A)]
+                    else:
+                        mdl = UnsupervisedOPF(min_k=1, max_k=3, distance="euclidean")
+                        mdl.fit(Xall.copy(), Yall.copy()); mdl.propagate_labels()
+                        one = lambda A: [tuple(int(v) for v in pr) for pr in zip(*mdl.predict(A))]
+                    batch = one(Q.copy())
+                    singles = [one(Q[j:j + 1].copy())[0] for j in range(len(Q))]
+                    rev = one(Q[::-1].copy())[::-1]
+                except Exception:
+                    continue
+                stats[which] += 1; stats["queries"] += 3 * len(Q)
+                rep.count_case(("boundary", which, cbound, Xall.tobytes(), Q.tobytes()), True)
+                if not (batch == singles == rev):
+                    nviol += 1
+                    if nviol <= 3:
+                        j = [t for t in range(len(Q)) if not (batch[t] == singles[t] == rev[t])][0]
+                        rep.violation("%s predict: row %r gets %r in the batch, %r alone, %r in the reversed batch" % (which, Q[j].tolist(), batch[j], singles[j], rev[j]),
+                                      dict(d, model=which), key="predict_position:" + which)
     rep.corr["knn_batches"] = dict(cases=stats["knn"] + stats["unsup"], distribution=stats)
     rep.extra["oracle_violations"] = nviol
     rep.samples = [it.desc() for it in insts[:2]]
